@@ -10,7 +10,7 @@ ASSUMPTIONS = ["the reference broker (tools/cluster.py) places the injected code
 EXHAUSTIVE = False
 
 APIS = ["fetch_offsets", "list_offsets", "fetch_messages", "produce", "commit", "group_fetch_v0", "group_fetch_v1",
-        "coordinator", "poll", "send"]
+        "coordinator", "poll", "send"]      # plus "commit2" / "group_fetch2": two failing partitions in one answer
 T1 = b"t1"
 
 
@@ -48,6 +48,18 @@ def make_case(api, code, pos, layout="one"):
         spec["committed"] = {b"g": {(T1, 0): 5, (T1, 1): 6, (T1, 2): 7}}
         ops += [T("set_group_offset_storage", [0 if api.endswith("v0") else 1]),
                 T("fetch_group_offsets", [b"g", [T("fgo", [T1, 0]), T("fgo", [T1, 1]), T("fgo", [T1, 2])]])]
+    elif api in ("commit2", "group_fetch2"):
+        # two failing partitions in one answer: a non-retryable code at `pos`, a retryable one (once) at another position
+        name = "offset_commit" if api == "commit2" else "offset_fetch"
+        rp = (pos + 1 + (code % 2)) % 3
+        # (both are answered once only: a client that wrongly tries again is then answered 'ok' and would report success)
+        spec["inject"] = [(name, T1, pos, code, 1), (name, T1, rp, 14 if code % 2 else 16, 1)]
+        spec["committed"] = {b"g": {(T1, 0): 5, (T1, 1): 6, (T1, 2): 7}}
+        ops.append(T("set_group_offset_storage", [1]))
+        if api == "commit2":
+            ops.append(T("commit_offsets", [b"g", [T("co", [T1, 0, 1]), T("co", [T1, 1, 1]), T("co", [T1, 2, 1])]]))
+        else:
+            ops.append(T("fetch_group_offsets", [b"g", [T("fgo", [T1, 0]), T("fgo", [T1, 1]), T("fgo", [T1, 2])]]))
     elif api == "coordinator":
         spec["coordinator_script"] = {b"g": [code] * 10}
         ops += [T("set_group_offset_storage", [1]), T("fetch_group_topic_offset", [b"g", T1])]
@@ -84,6 +96,13 @@ def gen(rng, tier):
                 else:
                     cases.append(make_case(api, code, pos, "one"))
                     cases.append(make_case(api, code, pos, "spread"))
+    for api in ("commit2", "group_fetch2"):
+        for code in [c for c in ALL_CODES if c not in (0, 3, 14, 15, 16)]:
+            if tier == "quick" and rng.random() < 0.5:
+                continue
+            for pos in ([0, 1, 2] if tier != "quick" else [rng.choice([0, 1, 2])]):
+                n += 1
+                cases.append(make_case(api, code, pos, "spread" if n % 2 else "one"))
     return cases
 
 
@@ -143,6 +162,15 @@ def oracle(case, recs, cl):
             expect(all(pc.args[1].name == "ok" for pc in pcs if pc.args[0] != pos) and len(pcs) == 3, "other confirms must be Ok")
     elif api == "commit":
         expect(res == T("err", [T("kafka", [exp])]), "commit must fail with kind %d" % exp)
+    elif api in ("commit2", "group_fetch2"):
+        rp = (pos + 1 + (code % 2)) % 3
+        if pos < rp:
+            # the refusal is listed before the retryable code: it ends the call
+            expect(res == T("err", [T("kafka", [exp])]), "the call must fail with kind %d (a retryable code further down the same answer "
+                   "does not make a refused partition succeed)" % exp)
+        else:
+            # the retryable code is listed first: the whole request is tried again, and the second answer (all partitions accepted) counts
+            expect(res.name == "ok", "the retryable code listed first means the request is tried again; the second answer accepts every partition")
     elif api in ("group_fetch_v0", "group_fetch_v1"):
         if exp == 3:
             ok = res.name == "ok"
